@@ -45,6 +45,7 @@ type Result struct {
 	Log     []string            `json:"log,omitempty"`
 	Leaked  int                 `json:"leaked,omitempty"`
 	Harness string              `json:"harness,omitempty"` // harness trouble (never a violation)
+	Hung    bool                `json:"hung,omitempty"`    // the run never finished (see attributeHang); the process cannot run further bubbles
 }
 
 // Summary is the last line a worker writes: aggregated coverage of its runs.
@@ -220,6 +221,11 @@ func WorkerMain(t *testing.T, rigs map[string]Rig) {
 			finish()
 			os.Exit(2)
 		}
+		if r.Hung {
+			sum.LastSeed = s
+			finish()
+			os.Exit(3) // the stuck bubble stays behind: the driver restarts after LastSeed
+		}
 		if r.Leaked > 0 {
 			frozen++
 			sum.Frozen++
@@ -293,11 +299,55 @@ func runOne(t *testing.T, rig Rig, prop, tier string, tape *Tape, withLog bool) 
 		r.WallUs = time.Since(wall0).Microseconds()
 		return r
 	case <-time.After(time.Duration(*fWatchdog) * time.Second):
-		buf := make([]byte, 1<<20)
+		buf := make([]byte, 1<<22)
 		n := runtime.Stack(buf, true)
+		if fn, state := attributeHang(string(buf[:n])); fn != "" {
+			// The run cannot finish because a goroutine of the code under test waits for a lock
+			// that is never released (such a goroutine is not durably blocked, so the bubble never
+			// comes to rest). That is a finding about the code, not trouble of the harness; the
+			// driver confirms it by replaying the run in fresh processes.
+			return &Result{Seed: tape.Seed, Prop: prop, Rig: rig.Name, Tier: tier, Tape: tape.Recorded(), Hung: true,
+				Viol: []Violation{{Prop: prop, Oracle: prop + "/hang", Sig: fn, Msg: fmt.Sprintf("the run did not finish within %d s of real time: a goroutine is blocked in %s (%s) on a lock that is never released", *fWatchdog, fn, state)}}}
+		}
 		return &Result{Seed: tape.Seed, Prop: prop, Rig: rig.Name, Tape: tape.Recorded(),
 			Harness: "watchdog: run did not finish\n" + string(buf[:n])}
 	}
+}
+
+// attributeHang looks, in a full goroutine dump, for a goroutine waiting for a sync.Mutex /
+// sync.RWMutex whose innermost frame outside the runtime and the standard library belongs to
+// tmpim/casket; it returns that function and the wait state.
+func attributeHang(dump string) (fn, state string) {
+	for _, g := range strings.Split(dump, "\n\n") {
+		nl := strings.IndexByte(g, '\n')
+		if nl < 0 || !strings.HasPrefix(g, "goroutine ") {
+			continue
+		}
+		head := g[:nl]
+		if !strings.Contains(head, "[sync.Mutex.Lock") && !strings.Contains(head, "[sync.RWMutex.") {
+			continue
+		}
+		for _, line := range strings.Split(g[nl+1:], "\n") {
+			if strings.HasPrefix(line, "\t") || line == "" || strings.HasPrefix(line, "created by") {
+				continue
+			}
+			f := line
+			if i := strings.LastIndexByte(f, '('); i > 0 {
+				f = f[:i]
+			}
+			if strings.HasPrefix(f, "github.com/tmpim/casket") {
+				st := head[strings.IndexByte(head, '[')+1:]
+				if i := strings.IndexAny(st, ",]"); i > 0 {
+					st = st[:i]
+				}
+				return f, st
+			}
+			if strings.HasPrefix(f, "verif/") {
+				break // a lock of the harness itself: not a finding
+			}
+		}
+	}
+	return "", ""
 }
 
 // bubbleGoroutines counts the goroutines of the calling goroutine's synctest
